@@ -393,7 +393,10 @@ def run(ctx: Any) -> None:
             # Annotated[X | None, meta]: per the property an optional X.  Before e0af9e7 the framework did not see the marker inside
             # the wrapper (None refused; Enum / dict / frozenset values arrived unconverted; dataclasses refused): R_C02.v lemma 7.
             # Kept as its own check so that the finding is reported under its key if it ever returns; the ordinary oracle follows.
-            bad = well and (not o.ok or not (o.seen and H.exact_eq(v, o.seen[0])) or not H.exact_eq(v, o.result))
+            # its signature: the call is refused, or what arrives is the unconverted wire form (another Python type than the value's)
+            got = [o.seen[0]] if o.seen else []
+            got += [o.result] if o.ok else []
+            bad = well and (not o.ok or any(type(g) is not type(v) for g in got))
             if bad:
                 ctx.violation("optional-marker-inside-annotated-not-recognised",
                               "Annotated[X | None, meta] is not treated as an optional X: " + ("refused" if not o.ok else "value arrives unconverted"), repl)
